@@ -78,7 +78,8 @@ CHECKS = {
              "built error (merge(_, previous result, _)) up to the returned error. (c03_stop_ends_the_work) for every type, payload and script whose answers are all Break from call k on: after the "
              "first error-creating call at or after k, every later call is a hand-over merge whose `other` is the result of the call just before it (no value examined, no report, no user function) "
              "and deserialize returns Err of the last result - the very predicate the monitor evaluates on the implementation (c03_tail_ok), proved by a static stop discipline on call trees "
-             "(Stops/Tail, sound for runs) and induction on types.",
+             "(Stops/Tail, sound for runs) and induction on types. Implementation-only monitor for scripts that answer Continue again after a Break: after the report of a failed field-level "
+             "try_from answered Break and its hand-over, the next call is the hand-over of the struct's result to its parent (the model says so: c11_field_stage_err).",
         ref="5 C03", technique="Coq: generic causality theorem on call trees + answer-insensitivity invariant + stop discipline (Stops/Tail) with soundness and induction on types; relational in-Coq "
                                "monitor over (keep-going, scripted) run pairs",
         note="Trusted: as C01. The stop theorem is for scripts that keep answering Break once they started (fail-fast and give-up-after-k error types); a parent that answers Continue to a hand-over "
